@@ -2,7 +2,7 @@
    state (position, closed flag) of the abstract byte stream over the payload, the operation returns what
    the abstract stream returns and the states stay related.  Corollaries of Proofs/ZlibFile.step_sim. *)
 From Coq Require Import ZArith List Bool Lia ZifyBool.
-Require Import JV.Base.PyPrelude JV.Model.ZlibFile JV.Proofs.ZlibFileLists JV.Proofs.ZlibFile.
+Require Import JV.Base.PyPrelude JV.Model.ZlibFile JV.Proofs.ZlibFileLists JV.Proofs.ZlibFile JV.Gen.C13_Constants.
 Import ListNotations.
 Open Scope Z_scope.
 
@@ -326,3 +326,10 @@ Proof.
   unfold len. cbn [length Z.of_nat]. replace ((0 <=? limit) && (limit <=? 0)) with false by lia.
   destruct (op_closed s F st rs S C) as (H & _). rewrite H. reflexivity.
 Qed.
+
+(* ------------------------------------------------------------------ the live constants *)
+Lemma constants_agree :
+  mode_code MClosed = live_MODE_CLOSED /\ mode_code MRead = live_MODE_READ /\
+  mode_code MReadEOF = live_MODE_READ_EOF /\ mode_code MWrite = live_MODE_WRITE /\
+  0 < live_BUFFER_SIZE /\ live_zlib_wbits <> live_gzip_wbits.
+Proof. repeat split; try reflexivity; discriminate. Qed.
